@@ -23,6 +23,12 @@ func newCasesFile() *lib.CasesFile {
 
 // the oracle table for fmt %v of float keys goes into the prelude of the cases file
 func writeCases(r *runner, cf *lib.CasesFile, name string) {
+	if len(cf.Cases) == 0 && r.shard > 0 {
+		return
+	}
+	if r.shard > 0 || len(cf.Cases) >= maxCasesPerFile {
+		name = fmt.Sprintf("%s_%d", name, r.shard)
+	}
 	bits := make([]uint64, 0, len(r.ffmt))
 	for b := range r.ffmt {
 		bits = append(bits, b)
@@ -60,11 +66,31 @@ func nontrivial(s *Shape, v *Val) bool {
 	return true
 }
 
+// at most this many cases per cases file (one coqc each, about 2 MB of memory per case)
+const maxCasesPerFile = 1500
+
 type runner struct {
 	cfg   *lib.Config
 	res   *lib.Result
 	total int
 	ffmt  map[uint64]string
+	shard int // number of cases files already written for the current family
+}
+
+// flush writes the cases file of the current family when it is full and starts the next shard.
+func (r *runner) flush(cf *lib.CasesFile, name string) *lib.CasesFile {
+	if len(cf.Cases) < maxCasesPerFile {
+		return cf
+	}
+	writeCases(r, cf, name)
+	r.shard++
+	return newCasesFile()
+}
+
+// finish writes the last shard of a family.
+func (r *runner) finish(cf *lib.CasesFile, name string) {
+	writeCases(r, cf, name)
+	r.shard = 0
 }
 
 func (r *runner) process(cs *Case, toCoq bool, cf *lib.CasesFile) {
@@ -139,21 +165,24 @@ func main() {
 		c2 := cloneCase(cs)
 		nameStructs(c2)
 		r.process(c2, i%stride == off, cf)
+		cf = r.flush(cf, "cases_exhaustive")
 	}
 	res.Extra["exhaustive_cases"] = len(exh)
-	writeCases(r, cf, "cases_exhaustive")
+	r.finish(cf, "cases_exhaustive")
 	// 2. random shapes and values
 	cf = newCasesFile()
 	for i := 0; i < nRandom; i++ {
 		r.process(randCase(rng.Fork(), "random"), i < coqRandom, cf)
+		cf = r.flush(cf, "cases_random")
 	}
-	writeCases(r, cf, "cases_random")
+	r.finish(cf, "cases_random")
 	// 3. random structs (the struct <-> object clause)
 	cf = newCasesFile()
 	for i := 0; i < nStruct; i++ {
 		r.process(randCase(rng.Fork(), "struct"), i < coqStruct, cf)
+		cf = r.flush(cf, "cases_struct")
 	}
-	writeCases(r, cf, "cases_struct")
+	r.finish(cf, "cases_struct")
 	res.Write(cfg)
 }
 
